@@ -92,5 +92,21 @@ CHECKS = {
           "documents). Not modelled: @mrpc, aux contexts, async results, push output, Redirect, non-default message naming.",
   'technique': 'Coq proof over a Gallina model of NullServer and the wire pipeline + fail-closed ast translator (nullsrv) + differential correspondence and NullServer-vs-wire oracle',
  },
+ 'C07': {
+  'text': "For every application the generated WSDL 1.1 and its embedded schemas are well-formed; every QName reference (type, "
+          "base, element, message, binding, port) resolves to a definition in the document or an XSD builtin; every exposed "
+          "method is exactly one portType operation with a matching binding operation, messages and declared faults; "
+          "rebuilding in fresh processes under any hash seed gives byte-identical output; and a SOAP client generated from "
+          "the WSDL alone (zeep, in-process) produces requests the server accepts and decodes the replies to the values returned.",
+  'design_ref': 'DESIGN.md section 6 (C07)',
+  'note': TB + "Proved over a model of Wsdl11/XmlSchema/toposort2/get_namespace_prefix that takes its decisive tokens from the "
+          "source on every run (Gen/WsdlGen.v): prefix allocation; toposort2 totality and soundness; closure of WSDL "
+          "references; one operation per method with unique, paired bindings; closure of schema references under the "
+          "decidable wf_snap (checked per snapshot); order independence under key_injb or tier_sepb (about 85-90% of "
+          "generated snapshots; ties between identical complex twins in one tier are observed under hash seeds, not proved). "
+          "Six listed findings (foreign namespaces on message names, a bare class reused as a header, mutually recursive "
+          "types). Well-formedness of the bytes and the zeep client are exercised, not proved; populate_interface is not modelled.",
+  'technique': 'Coq proof over a Gallina model of the WSDL/XSD emitters + fail-closed ast translator (wsdlgen) + model-vs-bytes correspondence + byte oracle (references, hash seeds, zeep)',
+ },
 }
 NOT_APPLICABLE = {}
